@@ -233,7 +233,7 @@ contract(P + "Task.add", props=["C09", "C01"], shards=4, types={"message_dict": 
                    "    level_of(ACT.task_level) == msg_level(message_dict)[:-1]) and "
                    "ite(is_start_message(message_dict), "
                    "    ACT.start_message is not None and logged(typed(ACT.start_message, 'WrittenMessage')) == dict_of(message_dict), "
-                   "    ACT.end_message is not None and logged(typed(ACT.end_message, 'WrittenMessage')) == dict_of(message_dict)))", ["C09", "C01"]),
+                   "    ACT.end_message is not None and logged(typed(ACT.end_message, 'WrittenMessage')) == dict_of(message_dict)))", ["C09", "C01", "C11"]),
                   ("the-action-keeps-what-was-already-known-about-it",
                    "implies(is_action_message(message_dict) and old(has_node(self, msg_level(message_dict)[:-1])), "
                    "kids(ACT) == kids(oldpar(self, msg_level(message_dict))) and "
@@ -249,7 +249,7 @@ contract(P + "Task.add", props=["C09", "C01"], shards=4, types={"message_dict": 
                    "implies(not is_action_message(message_dict) and msg_level(message_dict) != [1], "
                    "has_node(result, msg_level(message_dict)[:-1]) and node_at(result, msg_level(message_dict)[:-1]) == box(PAR) and "
                    "isinst(dget(kids(PAR), lvk(msg_level(message_dict))), 'WrittenMessage', True) and "
-                   "logged(typed(dget(kids(PAR), lvk(msg_level(message_dict))), 'WrittenMessage')) == dict_of(message_dict))", ["C09", "C01"]),
+                   "logged(typed(dget(kids(PAR), lvk(msg_level(message_dict))), 'WrittenMessage')) == dict_of(message_dict))", ["C09", "C01", "C11"]),
                   ("a-lone-message-at-level-1-is-the-whole-task",
                    "implies(not is_action_message(message_dict) and msg_level(message_dict) == [1], "
                    "has_node(result, []) and isinst(node_at(result, []), 'WrittenMessage', True) and "
